@@ -1,6 +1,7 @@
 import Verif.Drv.Runner
 import Verif.Model.Chain
 import Verif.Model.ChainF
+import Verif.Model.Ancestor
 
 namespace Verif.Drv
 open Verif.Chain
@@ -61,6 +62,10 @@ def chainStep (s : ChainSt) (ws : List String) : ChainSt × String :=
     match nats? ids with
     | some ids => (s, "full" ++ String.join ((ids.filter fun i => s.full i).map fun i => " " ++ toString i))
     | none => (s, "bad-op")
+  | ["anc", depth, id] =>
+    match nat? depth, nat? id with
+    | some d, some i => (s, toString (ancestorOf s.U s.m d i))
+    | _, _ => (s, "bad-op")
   | ["minreorg"] => (s, toString (minReorgIndex s.m))
   | ["history"] => (s, joinNats (history s.m))
   | ["rec", id] =>
